@@ -716,9 +716,18 @@ impl fmt::Display for Pattern {
             Pattern::Struct(struct_pattern) => format!("{struct_pattern}"),
             Pattern::Enum(enum_pattern) => format!("{enum_pattern}"),
             Pattern::Tuple(elems) => {
+                // The elements of a tuple are positional. They must be displayed in their
+                // order and none of them must be left out, unlike the alternatives
+                // of an or-pattern, which the `PatStack`'s `Display` sorts and deduplicates.
                 let mut builder = String::new();
                 builder.push('(');
-                write!(builder, "{elems}")?;
+                builder.push_str(
+                    &elems
+                        .iter()
+                        .map(|x| x.to_string())
+                        .collect::<Vec<_>>()
+                        .join(", "),
+                );
                 builder.push(')');
                 builder
             }
